@@ -22,6 +22,8 @@ def run(c):
     if not c.replay:
         c.mc("BFD", "BFDMC.%s.cfg" % c.tier, timeout=3000)
         c.mc("BFD", "BFDMC.nofault.cfg", timeout=600)
+        if c.thorough:       # Budget 2 with injected foreign My Discriminators as well
+            c.mc("BFD", "BFDMC.foreign.cfg", timeout=3000)
         r = c.tlc("BFD", "BFDMC.code.cfg", timeout=600)
         # (this TLC prints "Temporal property Recovers was violated"; vlib only knows the plural form)
         if r.prop_violated or re.search(r"Temporal property Recovers was violated", r.out):
